@@ -349,7 +349,7 @@ def _scan_phase_numpydoc_and_google(
         else:
             stacker[-1].append(line)
 
-    if line is not None and (not stacker or not stacker[-1] or stacker[-1][0] != line):
+    if line is not None and (not stacker or not stacker[-1] or line not in stacker[-1]):
         if "scanned_afterward" in scanned:
             scanned["scanned_afterward"].insert(0, line)
         else:
@@ -362,7 +362,12 @@ def _scan_phase_numpydoc_and_google(
         )
 
     if stacker:
-        scanned[namespace] = stacker
+        scanned[namespace] = (
+            # A Google return section that follows no parameter section: same shape as one that does
+            list(chain.from_iterable(stacker))
+            if style is Style.google and namespace in return_tokens
+            else stacker
+        )
 
     return scanned
 
